@@ -9,6 +9,7 @@ LEAN_MODULES = ["MpirProofs.Props.C04_allocsafe"]
 THEOREMS = ["Mpir.AllocSafe." + t for t in (
     "mpz_add_alloc_safe", "mpz_sub_alloc_safe", "mpz_add_ui_alloc_safe", "mpz_sub_ui_alloc_safe", "mpz_set_alloc_safe",
     "mpz_neg_alloc_safe", "mpz_abs_alloc_safe", "mpz_set_ui_alloc_safe", "mpz_set_si_alloc_safe", "mpz_mul_2exp_alloc_safe",
+    "mpz_com_alloc_safe_partial", "mpz_tdiv_q_2exp_alloc_safe_partial",
     "write_eq_storeAll", "storeAll_bad", "MPZ_REALLOC_grown")]
 TRUSTED = ["hand-written size-aware models lean/Mpir/Model/AllocSafe.lean + AllocSafeMpz.lean (memory = variable id -> block with its allocated length and a "
            "generation counter; kernels = list functions applied to checked index ranges, all reads before the stores), tied by exact comparison of "
@@ -81,7 +82,7 @@ def limb_k(rng, u):
 
 def shift_k(rng, u):
     n = nl(u)
-    return rng.choice([0, 1, 63, 64, 65, 127, 128, 64 * n - 1, 64 * n, 64 * n + 1, 64 * max(n - 1, 0), 64 * max(n - 1, 0) + 1,
+    return rng.choice([0, 1, 63, 64, 65, 127, 128, max(64 * n - 1, 0), 64 * n, 64 * n + 1, 64 * max(n - 1, 0), 64 * max(n - 1, 0) + 1,
                        rng.randrange(0, 64 * (n + 2)), max(abs(u).bit_length() - 1, 0), abs(u).bit_length(), rng.randrange(0, 64)])
 
 def gen_ops(rng, tier, ctx=None):
